@@ -17,6 +17,9 @@ pub fn roundtrip_bytes(format: Format, game: truth::Game, maps: &[String], bytes
         Some(t) => t,
         None => {
             if !d.has_error_diag() { return fail("decompile-fails-without-error-diagnostic", format!("{} {}", format.name(), game)); }
+            // a source may spell an instruction as raw bytes that do not fit the opcode's signature (`ins_40(@blob="")`):
+            // the compiler writes what it was given and the decompiler rightly refuses it with an error
+            if d.diagnostics.contains("not enough bytes in instruction") { return Sexp::app("skip", vec![Sexp::atom("blob-does-not-fit-signature")]); }
             return fail(format!("decompile-of-valid-binary-fails {} {}", format.name(), diag_class(&d.diagnostics)), format!("{} opts={optbits} width={width}", game));
         },
     };
